@@ -92,12 +92,12 @@ def _variants(cfgs, names):
 
 def _rt_cfgs(tier):
     out = []
-    for c in memoryless(tier):
+    for c in memoryless(tier, max_points=64 if tier == "quick" else None):  # 32/64-point schemes: one and two symbols, all bit values
         n = npoints(c)
         if n <= 16:
             names = ["1d.1", "1d.2", "1d.3", "B1.1", "B2.2"] + (["B2.3"] if tier == "thorough" else [])
         elif n <= 64:
-            names = ["1d.1", "1d.2", "B2.1"]
+            names = ["1d.1", "B1.1"] if tier == "quick" else ["1d.1", "1d.2", "B2.1"]
         else:
             names = ["1d.1", "B1.1"]
         out += _variants([c], names)
@@ -675,3 +675,83 @@ def input_dtypes(spec, cfg, tier, seed):
             cases.append((f"modulate bits{shape}", lambda: fresh_pair(cfg)[0].forward, (bits,)))
         cases.append((f"modulate all-ones bits{shape}", lambda: fresh_pair(cfg)[0].forward, (torch.ones(shape),)))
     return DT.run("C05", spec, cfg, tier, seed, cases, DT.BIT_DTYPES, "modulation of batched bit rows (2x3, 1x4, 3x2 symbols)")
+
+
+# ================================================================================================ alternative constructor options
+@obligation("C05.constructor_options", function=M + "dpsk.py:DPSKModulator.__init__; " + M + "dpsk.py:DPSKDemodulator.__init__; " + M + "psk.py:BPSKModulator.forward; " + M + "pi4qpsk.py:Pi4QPSKDemodulator.forward",
+            configs=lambda tier: [Cfg("options", "dpsk_aliases"), Cfg("options", "bpsk_real_output"), Cfg("options", "dpsk_invalid_order"), Cfg("options", "pi4_soft_output_flag")], kind="ground", engine="ground")
+def constructor_options(cfg):
+    """the rarely used constructor options configure the same scheme as the documented main ones (closed; exhaustive over the listed
+    values): DPSK(bits_per_symbol=b, gray_coded=g) == DPSK(order=2^b, gray_coding=g) (buffers and every 3-symbol round trip);
+    BPSKModulator(complex_output=False) emits 1-2x as a real tensor and round-trips; DPSK rejects orders that are no power of two"""
+    import itertools
+
+    from kaira.modulations import dpsk, pi4qpsk, psk
+
+    what = cfg[1]
+    if what == "dpsk_aliases":
+        bad = []
+        for b in (1, 2, 3, 4):
+            for g in (True, False):
+                pairs = [(dpsk.DPSKModulator(order=2**b, gray_coding=g), dpsk.DPSKDemodulator(order=2**b, gray_coding=g)), (dpsk.DPSKModulator(bits_per_symbol=b, gray_coded=g), dpsk.DPSKDemodulator(bits_per_symbol=b, gray_coded=g)),
+                         (dpsk.DPSKModulator(bits_per_symbol=b, gray_coding=g), dpsk.DPSKDemodulator(bits_per_symbol=b, gray_coding=g))]
+                ref_m, ref_d = pairs[0]
+                for i, (m, d) in enumerate(pairs[1:], 1):
+                    for o in (m, d):
+                        o.eval()
+                    b1, b2 = _buffers(m), _buffers(ref_m)
+                    if not (m.bits_per_symbol == b and d.bits_per_symbol == b and m.order == 2**b and b1.keys() == b2.keys() and all(torch.equal(b1[k], b2[k]) for k in b1)):
+                        bad.append(f"b={b} gray={g} style {i}: buffers / order differ from DPSK(order={2 ** b}, gray_coding={g})")
+                        continue
+                    for bits in itertools.product((0.0, 1.0), repeat=3 * b) if b <= 2 else [tuple(float((j * 5 + s) % 3 % 2) for j in range(3 * b)) for s in range(8)]:
+                        x = torch.tensor([bits])
+                        m.reset_state(), d.reset_state(), ref_m.reset_state(), ref_d.reset_state()
+                        ref_m.eval(), ref_d.eval()
+                        with torch.no_grad():
+                            y, yr = m(x), ref_m(x)
+                            o, orf = d(y), ref_d(yr)
+                        if not (torch.allclose(y, yr) and torch.equal(o, orf) and torch.equal(o, x[..., b:])):
+                            bad.append(f"b={b} gray={g} style {i}: bits {bits}: symbols/bits differ from the order= construction or from the sent bits")
+                            break
+        yield "bits_per_symbol_and_gray_coded_are_aliases", not bad, "; ".join(bad[:4]) or "b = 1..4, gray/binary, all 3-symbol sequences for b <= 2"
+    elif what == "bpsk_real_output":
+        m, d = psk.BPSKModulator(complex_output=False), psk.BPSKDemodulator()
+        bad = []
+        for bits in itertools.product((0.0, 1.0), repeat=4):
+            for shape in ((4,), (1, 4), (2, 2)):
+                x = torch.tensor(bits).reshape(shape)
+                with torch.no_grad():
+                    y = m(x)
+                    o = d(y)
+                if y.is_complex() or tuple(y.shape) != shape or not torch.equal(y, 1.0 - 2.0 * x) or not torch.equal(o.float(), x):
+                    bad.append(f"bits {bits} shape {shape}: symbols {y.tolist()} demodulated {o.tolist()}")
+        yield "real_output_is_1_minus_2x_and_round_trips", not bad, "; ".join(bad[:3]) or "all 4-bit sequences, layouts (4), (1,4), (2,2)"
+    elif what == "dpsk_invalid_order":
+        bad = []
+        for order in (0, 3, 5, 6, 7, 12, -4):
+            for cls in (dpsk.DPSKModulator, dpsk.DPSKDemodulator):
+                try:
+                    cls(order=order)
+                    bad.append(f"{cls.__name__}(order={order}) accepted")
+                except Exception:  # any error is a rejection (the demodulator fails in log2/int conversion for 0 and negative orders)
+                    pass
+        yield "order_not_a_power_of_two_rejected", not bad, "; ".join(bad) or "orders 0, 3, 5, 6, 7, 12, -4"
+    else:
+        # soft_output=True without a noise variance must still be a soft demodulation (unit variance) whose signs give the bits
+        bad = []
+        for g in (True, False):
+            m = pi4qpsk.Pi4QPSKModulator(gray_coded=g)
+            hard = pi4qpsk.Pi4QPSKDemodulator(gray_coded=g)
+            soft = pi4qpsk.Pi4QPSKDemodulator(soft_output=True, gray_coded=g)
+            ref = pi4qpsk.Pi4QPSKDemodulator(gray_coded=g)
+            for o in (m, hard, soft, ref):
+                o.eval()
+            for bits in itertools.product((0.0, 1.0), repeat=6):
+                x = torch.tensor([bits])
+                with torch.no_grad():
+                    y = m(x)
+                    l, r, h = soft(y), ref(y, 1.0), hard(y)
+                if tuple(l.shape) != tuple(x.shape) or not torch.allclose(l, r, rtol=1e-5, atol=1e-6) or not torch.equal((l < 0).float(), x) or not torch.equal(h.float(), x):
+                    bad.append(f"gray={g} bits {bits}: soft_output LLRs {l.tolist()} unit-variance LLRs {r.tolist()} hard {h.tolist()}")
+                    break
+        yield "soft_output_flag_is_unit_variance_soft_demodulation", not bad, "; ".join(bad[:2]) or "all 3-symbol sequences, gray and binary"
